@@ -342,13 +342,18 @@ Proof. apply aes_cipher_length. Qed.
 Lemma aes_block_enc_wf b : wf_bytes b -> wf_bytes (aes_block_enc c12_gppp_aes_key b).
 Proof. intros H. apply aes_cipher_wf; [apply aes_round_keys_wf, gppp_key_wf | exact H]. Qed.
 
+Lemma cbc_enc_block_eq key iv d : cbc_encrypt (aes_block_enc key) 16 iv d = aes_cbc_encrypt key iv d.
+Proof. reflexivity. Qed.
+Lemma cbc_dec_block_eq key iv d : cbc_decrypt (aes_block_dec key) 16 iv d = aes_cbc_decrypt key iv d.
+Proof. reflexivity. Qed.
+
 (* C12_gpp_is_aes256cbc (encrypt): for every Go string *)
 Theorem gppp_encrypt_is_aes256cbc s :
   gppp_encrypt s =
   Ok (b64_encode (aes_cbc_encrypt ms_gpp_key (zeros 16) (pkcs7_pad_spec 16 (utf16le_encode (go_runes s))))).
 Proof.
   unfold gppp_encrypt. rewrite (gppp_encrypt_with_spec aes_block_enc c12_gppp_aes_key eq_refl s).
-  rewrite gppp_key_is_published. reflexivity.
+  rewrite cbc_enc_block_eq, gppp_key_is_published, enc_utf16le_go_spec. reflexivity.
 Qed.
 
 (* … in particular for a Unicode password it is the cpassword of [MS-GPPREF] *)
@@ -386,7 +391,7 @@ Proof.
   destruct (N.eqb_spec (lenN ct mod 16) 0) as [H16|H16]; cbn [negb];
     [|split; [discriminate | intros [? _]; contradiction]].
   assert (Hplain : cbc_decrypt (aes_block_dec c12_gppp_aes_key) 16 zero_iv ct = gpp_plain_padded ct).
-  { unfold gpp_plain_padded, aes_cbc_decrypt, aes_block_dec. now rewrite gppp_key_is_published. }
+  { unfold gpp_plain_padded, zero_iv. fold (zeros 16). rewrite cbc_dec_block_eq, gppp_key_is_published. reflexivity. }
   rewrite Hplain.
   assert (Hpwf : wf_bytes (gpp_plain_padded ct)).
   { rewrite <- Hplain. apply cbc_decrypt_wf; [| |exact Hwf|apply wf_zeros].
